@@ -1,9 +1,9 @@
 #!/bin/bash
-# usage: facts_for_patch.sh <patch.diff> <out.json>   facts of /repo HEAD with the patch applied, built in a scratch copy
+# usage: facts_for_patch.sh <patch.diff|-> <out.json>   facts of /repo HEAD with the patch applied, built in a scratch copy
 # (outside /repo and /verif, removed afterwards; own cargo target dir so that it can run next to other checks)
 S=$(mktemp -d /tmp/ffp_XXXXXX)
 git -C /repo archive HEAD | tar -x -C $S
-(cd $S && patch -p1 -s --no-backup-if-mismatch < "$1") || { rm -rf $S; exit 1; }
-VERIF_REPO=$S VERIF_TARGET_DIR=/verif/build/target_scratch /verif/rules/gen_facts.sh "$2" >/dev/null 2>&1; rc=$?
+if [ "$1" != "-" ]; then (cd $S && patch -p1 -s --no-backup-if-mismatch < "$1") || { rm -rf $S; exit 1; }; fi
+VERIF_REPO=$S VERIF_TARGET_DIR=${VERIF_SCRATCH_TARGET:-/verif/build/target_scratch} /verif/rules/gen_facts.sh "$2" >/dev/null 2>&1; rc=$?
 rm -rf $S
 exit $rc
